@@ -129,7 +129,7 @@ def meta_conf(case, rid, registry):
     return ["colvar {", "  name v0", "  lowerBoundary 0", "  upperBoundary %d" % case["nbins"], "  width 1",
             "  distanceZ {", "    main { atomNumbers 1 }", "    ref { dummyAtom (0,0,0) }", "    axis (0,0,1)", "  }", "}",
             "metadynamics {", "  name m", "  colvars v0", "  hillWeight 1", "  gaussianSigmas %r" % SIGMA,
-            "  newHillFrequency %d" % case["hillfreq"], "  useGrids on", "  writeFreeEnergyFile off",
+            "  newHillFrequency %d" % case["hillfreq"]] + (["  useGrids on", "  writeFreeEnergyFile off"] if case.get("grids", True) else ["  useGrids off"]) + [
             "  multipleReplicas on", "  replicaID %s" % rid, "  replicasRegistry %s" % registry,
             "  replicaUpdateFrequency %d" % case["upfreq"], "}"]
 
@@ -163,6 +163,8 @@ def parse_meta(lines):
             res["step"] = int(t[1])
         elif t[0] == "ERRTEXT":
             res["errtext"] = s[8:]
+        elif t[0] == "META" and len(t) > 1 and t[1] == "none":
+            res["own"] = None          # the bias does not exist (its configuration was rejected)
         elif t[0] in ("META", "MIRROR"):
             d = {}
             i = 1
@@ -170,7 +172,7 @@ def parse_meta(lines):
                 k, v = t[i].split("=", 1)
                 d[k] = v
                 i += 1
-            assert t[i] == "hills"
+            assert i < len(t) and t[i] == "hills", s
             i += 1
             hl = []
             while i < len(t) and "=" not in t[i]:
